@@ -138,6 +138,10 @@ func (r *uiOptions) EnsureDefaults() {
 	if r.BasePath == "" {
 		r.BasePath = "/"
 	}
+	if !strings.HasPrefix(r.BasePath, "/") {
+		// a base path is always rooted: same rule as WithUIBasePath
+		r.BasePath = "/" + r.BasePath
+	}
 	if r.Path == "" {
 		r.Path = defaultDocsPath
 	}
